@@ -6,30 +6,57 @@ MODEL = "C02"
 MODEL_QUALID = "Model.RateLimiter.run_script"
 NCFG = 5
 PER_EV = 4
-FORMAT = ("script [window type 0=fixed 1=sliding log 2=sliding counter; limit; period_ms; timeout_ms; n; (op a b)*] "
-          "op 1=Poll a 2=Drop a 3=Advance a(ms) 4=Complete a b(0 ok,1 err,2 panic) 5=Call a (create the call future without polling it). "
-          "trace per event [r; started = number of inner call()s made during this poll; in-flight; wake mask]; r: -1 no poll, 0 pending, 1 Ok, 2 Err(Inner), 3 RateLimited, 5 panicked, 9 nothing to poll")
+FORMAT = ("script [window type 0=fixed 1=sliding log 2=sliding counter; limit; period; timeout; n + 1000*mode; (op a b)*] "
+          "durations z: z < 10^15 = z ms, 10^15 <= z < 2*10^15 = Duration::MAX, z >= 2*10^15 = Duration::from_secs(z - 2*10^15); "
+          "mode 0 = every caller through its own fresh clone, 1 = all callers through ONE long-lived service value, 2 = clone chain, 3 = mixed; "
+          "op 1=Poll a 2=Drop a 3=Advance a(ms, 1 ms at a time) 4=Complete a b(0 ok,1 err,2 panic) 5=Call a (create the call future without polling it) 6=Jump a(ms, one clock step). "
+          "trace per event [r; started = number of inner call()s made since the end of the previous event; in-flight; wake mask]; r: -1 no poll, 0 pending, 1 Ok, 2 Err(Inner), 3 RateLimited, 5 panicked, 9 nothing to poll")
 TRUSTED = ["sliding counter: the binary64 weight/estimate arithmetic of try_acquire/estimate_wait_time is modelled by exact integer/rational arithmetic. "
            "The two are NOT equal in general (as_secs_f64(e)/as_secs_f64(P) is already inexact for P = 64 ms, and for e.g. P = 44 ms, limit 4 the code admits at "
            "previous 4 / current 3 / 33 ms into the bucket where the exact weighted count equals the limit); they give the same decision (admit / wait, the millisecond at which "
            "the sleep ends, wait > whole-ms timeout) for a period P whenever counter_agrees(P) below finds no difference in an exhaustive bit-exact emulation of the Rust "
-           "expressions over every previous/current count <= limit <= 4 and every whole-ms offset in the bucket; sliding-counter scripts with limit <= 4 only use periods "
-           "that pass this test (it is re-run on import), scripts with larger limits only use decisions that need no fraction (timeout 0, whole-period gaps). "
+           "expressions over every previous/current count <= limit <= 4 and every whole-ms offset in the bucket; sliding-counter scripts with limit <= 4 and periods up to 2 s only use periods "
+           "that pass this test; scripts with larger limits or periods (60 s, days) are generated and then kept only if the same emulation agrees at every bucket offset the script "
+           "can produce (every difference of two poll instants) for every previous/current count <= limit (counter_script_ok); for refresh_period 0 the ratio is the constant 1.0 and for "
+           "astronomic periods (>= 10^14 ms) the bucket is never rotated within a script, previous = 0 and the weighted count is the current count exactly. "
+           "Instant is modelled as bounded (i64 seconds from an epoch; the limiter is created 10^6 s after it in the driver) only where the code checks for overflow "
+           "(sliding log: oldest.checked_add(window)); Duration::MAX is modelled as 2^64 s (1 ns more than the real value: larger than every whole-ms duration). "
            "Bucket rotation (maybe_rotate_bucket) is integer arithmetic on nanoseconds in the code since fix 0566530 and equals the model's test for every period",
            "tokio sleep (fires at the first whole millisecond at/after its deadline), std Mutex around the state (never held across an await), oneshot gate",
            "poll atomicity"]
-ASSUMPTIONS = ["whole-millisecond instants", "limit_for_period >= 1, refresh_period > 0"]
+ASSUMPTIONS = ["whole-millisecond instants", "limit_for_period >= 1 (refresh_period 0 is driven through the correspondence; the theorems assume refresh_period > 0)",
+               "no time passes inside a poll (start.elapsed() is 0 in the round that starts at the caller's first poll)"]
+
+E15 = 10 ** 15
+DUR_MAX = 2 ** 64 * 1000          # Duration::MAX in the model's ms (rounded up to a whole ms)
+
+
+def dur(z):
+    """a script duration in ms (mirror of Model.RateLimiter.dur_of)"""
+    if z >= 2 * E15:
+        return min(z - 2 * E15, 2 ** 64 - 1) * 1000
+    if z >= E15:
+        return DUR_MAX
+    return z
+
+
+def secs(k):
+    """script encoding of Duration::from_secs(k)"""
+    return 2 * E15 + k
+
+
+ORIGIN_S = 10 ** 6                # the driver's virtual CLOCK_MONOTONIC starts at 10^6 s
 
 
 def events(s):
     body = s[NCFG:]
-    n = s[4]
+    n = s[4] % 1000
     evs = [tuple(body[i:i + 3]) for i in range(0, len(body) - len(body) % 3, 3)]
     out = []
     for e in evs:
         if e[0] in (1, 2, 4, 5) and 0 <= e[1] < n:
             out.append(e)
-        elif e[0] == 3:
+        elif e[0] in (3, 6):
             out.append(e)
     return out
 
@@ -110,8 +137,42 @@ def counter_disagreements(P, maxlimit=4):
     return bad
 
 
+_AGREE = {}
+
+
 def counter_agrees(P, maxlimit=4):
-    return not counter_disagreements(P, maxlimit)
+    if (P, maxlimit) not in _AGREE:
+        _AGREE[(P, maxlimit)] = not counter_disagreements(P, maxlimit)
+    return _AGREE[(P, maxlimit)]
+
+
+def counter_script_ok(s):
+    """may this sliding-counter script be compared with the exact model? Either its period passed the exhaustive test,
+    or (large periods / limits) every offset into a bucket that the script can produce - any difference of two instants
+    at which something is polled - gives the same decision for every previous/current count <= limit"""
+    if s[0] != 2:
+        return True
+    P, limit = dur(s[2]), s[1]
+    if P == 0 or P >= 10 ** 14:
+        return True     # zero bucket: ratio 1.0 exactly; astronomic bucket: never rotated within a script, previous = 0, weighted = current exactly
+    if limit <= 4 and P <= 2000:
+        return counter_agrees(P)
+    now, inst = 0, {0}
+    for e in events(s):
+        if e[0] in (3, 6):
+            now += max(0, e[1])
+        elif e[0] == 1:
+            inst.add(now)
+    inst = sorted(inst)
+    offs = sorted({b - a for i, a in enumerate(inst) for b in inst[i:] if b - a < P})
+    top = min(limit, s[4] % 1000)
+    for e in offs:
+        for prev in range(top + 1):
+            for cur in range(top + 1):
+                x, y = counter_code_f64(P, limit, prev, cur, e), counter_model_exact(P, limit, prev, cur, e)
+                if (x is None) != (y is None) or (x is not None and -(-x // 10 ** 6) != _math.ceil(y)):
+                    return False
+    return True
 
 
 # 559, 561, 672, 801: periods at which fl(2P)/fl(P) < 2.0 (the defect fixed by 0566530); 44 is a period
@@ -178,7 +239,33 @@ def corpus():
     # large limits: limit+1 callers at one instant, again one / two periods later
     for wt in (0, 1, 2):
         out.append(wide_limit_script(wt, 64, 10, 2))
+    # ---- second improvement round ----
+    # reproducers of the two configuration-extreme defects (fixed by 3a55d77 / 5ffed58): refresh_period Duration::MAX,
+    # limit 1, timeout 0, five sequential calls through ONE service value: one admitted, four rejected (the sliding log
+    # admitted all five; the sliding counter panicked under its mutex from the second call on)
+    for wt in (0, 1, 2):
+        out.append(list(MAX_PERIOD_REPRODUCER[wt]))
+        out.append([wt, 2, secs(2 ** 63), 50, 1006, 1, 0, 0, 1, 1, 0, 1, 2, 0, 6, 10, 0, 1, 3, 0, 6, 60, 0, 1, 3, 0, 1, 4, 0, 1, 5, 0])
+        # timeout Duration::MAX as well: the later callers wait for ever
+        out.append([wt, 1, E15, E15, 3, 1, 0, 0, 6, 50, 0, 1, 1, 0, 6, 5 * 10 ** 9, 0, 1, 2, 0, 1, 1, 0])
+        # refresh_period 0: everything is admitted (the counter divided 0/0 and panicked)
+        out.append([wt, 1, 0, 0, 1004, 1, 0, 0, 1, 1, 0, 6, 3, 0, 1, 2, 0, 1, 3, 0])
+    # sliding log at the edge of what Instant can hold: window end = i64::MAX s exactly (fine), one second more (never frees)
+    for k in (0, 1):
+        out.append([1, 1, secs(2 ** 63 - 1 - ORIGIN_S + k), 0, 4, 1, 0, 0, 6, 50, 0, 1, 1, 0, 6, 999, 0, 1, 2, 0, 6, 1, 0, 1, 3, 0])
+    # metronome: fixed window, limit 1, period 7: one fresh caller every 6 ms; a window that refreshes 1 ms early admits all of them
+    out.append(list(METRONOME_REPRODUCER))
+    # 60-day quota window crossed by clock jumps (2^32 ms = 49.7 days must not refresh it)
+    for wt in (0, 1):
+        out.append([wt, 1, 5184000000, 0, 1004, 1, 0, 0, 6, 2 ** 32, 0, 1, 1, 0, 6, 5184000000 - 2 ** 32 - 1, 0, 1, 2, 0, 6, 1, 0, 1, 3, 0])
+    # crate default / presets: 1 s and 60 s periods, one service value
+    out.append([0, 3, 1000, 100, 1005, 1, 0, 0, 1, 1, 0, 1, 2, 0, 1, 3, 0, 6, 900, 0, 1, 3, 0, 1, 4, 0, 6, 100, 0, 1, 3, 0, 1, 4, 0])
+    out.append([1, 3, 60000, 1000, 1005, 1, 0, 0, 1, 1, 0, 1, 2, 0, 1, 3, 0, 6, 59000, 0, 1, 3, 0, 1, 4, 0, 6, 1000, 0, 1, 3, 0, 1, 4, 0])
     return out
+
+
+MAX_PERIOD_REPRODUCER = {wt: [wt, 1, E15, 0, 1005, 1, 0, 0, 1, 1, 0, 6, 50, 0, 1, 2, 0, 6, 10 ** 9, 0, 1, 3, 0, 1, 4, 0] for wt in (0, 1, 2)}
+METRONOME_REPRODUCER = [0, 1, 7, 0, 8] + [x for k in range(8) for x in (1, k, 0, 3, 6, 0)]
 
 
 def wide_limit_script(wt, limit, P, gap_periods):
@@ -210,7 +297,7 @@ def random_script(rng, maxn=8, maxlen=50):
     if rng.random() < 0.1:
         maxn = 12
     n = rng.randint(1, maxn)
-    s = [wt, limit, P, timeout, n]
+    s = [wt, limit, P, timeout, n + 1000 * rng.choice([0, 0, 0, 1, 2, 3])]
     L = rng.randint(3, maxlen)
     for _ in range(L):
         x = rng.random()
@@ -221,7 +308,7 @@ def random_script(rng, maxn=8, maxlen=50):
         elif x < 0.62:
             s += [2, rng.randrange(n), 0]
         elif x < 0.88:
-            s += [3, rng.choice([1, 1, 2, 3, 5, P // 2, P - 1, P, P, P + 1, 2 * P]), 0]
+            s += [rng.choice([3, 3, 3, 6]), rng.choice([1, 1, 2, 3, 5, P // 2, P - 1, P, P, P + 1, 2 * P]), 0]
         else:
             s += [4, rng.randrange(n), rng.choice([0, 0, 1, 2])]
     return s
@@ -298,11 +385,128 @@ def wide_script(rng):
     return wide_limit_script(rng.choice([0, 1, 2]), rng.choice([5, 17, 64, 130]), rng.choice([10, 33, 64]), rng.choice([1, 2, 3]))
 
 
+def metronome_script(rng):
+    """saturated windows back to back: limit (sometimes limit+1) fresh callers every P-d ms for P/d + 2 rounds, timeout 0.
+    A window only d ms too short becomes visible to the cutting monitor after about P/d saturated windows"""
+    wt = rng.choice([0, 0, 2, 2, 1])
+    P = rng.choice([P for P in COUNTER_SMALL if P <= 20]) if wt == 2 else rng.choice([5, 7, 10, 12, 20])
+    d = rng.choice([1, 1, 2])
+    limit = rng.choice([1, 1, 2])
+    rounds = P // d + 2 + rng.randint(0, 2)
+    s = [wt, limit, P, rng.choice([0, 0, 0, 1]), 0]
+    k = 0
+    for _ in range(rounds):
+        for _ in range(limit + (1 if rng.random() < 0.2 else 0)):
+            s += [1, k, 0]
+            k += 1
+        s += [rng.choice([3, 6]), P - d, 0]
+    s[4] = k + 1000 * rng.choice([0, 1])
+    return s
+
+
+def extreme_script(rng):
+    """refresh_period / timeout_duration at the extremes: 0, Duration::MAX, 2^62..2^64 s, and periods whose window end is
+    just (not) representable as an Instant; a few callers, ms steps and jumps of up to months"""
+    wt = rng.choice([0, 1, 1, 2, 2])
+    edge = 2 ** 63 - 1 - ORIGIN_S
+    P = rng.choice([0, 0, E15, E15, secs(2 ** 63), secs(2 ** 64 - 1), secs(2 ** 62), secs(edge), secs(edge + 1), secs(edge - 1), secs(edge - 2)])
+    timeout = rng.choice([0, 0, 50, 1000, E15, E15, secs(2 ** 63)])
+    limit = rng.choice([1, 1, 2, 3])
+    n = rng.randint(2, 8)
+    s = [wt, limit, P, timeout, n + 1000 * rng.choice([0, 1, 2, 3])]
+    for _ in range(rng.randint(3, 25)):
+        x = rng.random()
+        if x < 0.6:
+            s += [1, rng.randrange(n), 0]
+        elif x < 0.65:
+            s += [5, rng.randrange(n), 0]
+        elif x < 0.72:
+            s += [2, rng.randrange(n), 0]
+        elif x < 0.92:
+            s += [6, rng.choice([1, 1, 50, 999, 1000, 1001, 2000, 10 ** 6, 2 ** 32, 5 * 10 ** 9]), 0]
+        else:
+            s += [4, rng.randrange(n), rng.choice([0, 1, 2])]
+    return s
+
+
+def preset_script(rng):
+    """the crate's default and presets: periods of 1 s and 60 s, limits up to 60, timeouts 100 ms / 1 s, clock jumps"""
+    wt = rng.choice([0, 1, 2])
+    P = rng.choice([1000, 1000, 60000, 250, 500, 2000])
+    limit = rng.choice([3, 5, 10]) if wt == 2 else rng.choice([3, 10, 50, 60])
+    timeout = rng.choice([0, 100, 1000, P, 2 * P])
+    n = limit + rng.randint(1, 5)
+    s = [wt, limit, P, timeout, n + 1000 * rng.choice([0, 1, 1, 2])]
+    nxt = 0
+    for _ in range(rng.randint(2, 5)):
+        for _ in range(rng.randint(1, limit + 1)):
+            if nxt < n:
+                s += [1, nxt, 0]
+                nxt += 1
+        s += [6, rng.choice([P // 10, P // 4, P // 2, P - 100, P - 1, P, P + 1, 2 * P, 100, 1000]), 0]
+        for i in range(nxt):
+            if rng.random() < 0.4:
+                s += [1, i, 0]
+    for i in range(nxt):
+        s += [1, i, 0]
+    return s
+
+
+def longgap_script(rng):
+    """quota windows of a day / 49.7 days + 5 ms / 60 days crossed by clock jumps around 2^32 ms and around the period"""
+    wt = rng.choice([0, 0, 1, 2])
+    P = rng.choice([86400000, 2 ** 32 + 5, 5184000000])
+    limit = rng.choice([1, 2])
+    n = rng.randint(3, 8)
+    s = [wt, limit, P, rng.choice([0, 0, 1000]), n + 1000 * rng.choice([0, 1])]
+    nxt = 0
+    for _ in range(rng.randint(2, 5)):
+        for _ in range(rng.randint(1, 2)):
+            if nxt < n:
+                s += [1, nxt, 0]
+                nxt += 1
+        g = rng.choice([2 ** 32, 2 ** 32 - 1, P - 1, P, P + 1, P - 2 ** 32, P // 2, 2 * P, 1000, 1])
+        if g > 0:
+            s += [6, g, 0]
+    for i in range(nxt):
+        s += [1, i, 0]
+    return s
+
+
+def crowd_script(rng):
+    """9..20 callers waiting at once, polled whenever time moves"""
+    wt = rng.choice([0, 1, 2])
+    P = rng.choice([P for P in COUNTER_SMALL if P <= 20]) if wt == 2 else rng.choice([7, 10, 20])
+    limit = rng.choice([1, 2])
+    n = rng.randint(9, 20)
+    s = [wt, limit, P, rng.choice([2 * P, 3 * P, 10 * P]), n + 1000 * rng.choice([0, 1, 2])]
+    order = list(range(n))
+    for step in range(rng.randint(P, 3 * P)):
+        rng.shuffle(order)
+        for i in order:
+            if step == 0 or rng.random() < 0.5:
+                s += [1, i, 0]
+        s += [3, rng.choice([1, 1, 2, P // 2]), 0]
+    return s
+
+
+def _checked(make, rng):
+    """generate until the script may be compared with the exact counter model (see counter_script_ok)"""
+    for _ in range(50):
+        s = make(rng)
+        if counter_script_ok(s):
+            return s
+    s[0] = 0
+    return s
+
+
 def generate(rng, tier):
     k = 1 if tier == "quick" else 12
-    return ([random_script(rng) for _ in range(900 * k)] + [burst_script(rng) for _ in range(250 * k)] +
-            [idle_script(rng) for _ in range(250 * k)] + [boundary_script(rng) for _ in range(150 * k)] +
-            [wide_script(rng) for _ in range(3 * k)])
+    return ([random_script(rng) for _ in range(800 * k)] + [burst_script(rng) for _ in range(200 * k)] +
+            [idle_script(rng) for _ in range(200 * k)] + [boundary_script(rng) for _ in range(150 * k)] +
+            [wide_script(rng) for _ in range(3 * k)] + [metronome_script(rng) for _ in range(120 * k)] +
+            [extreme_script(rng) for _ in range(120 * k)] + [_checked(preset_script, rng) for _ in range(60 * k)] +
+            [_checked(longgap_script, rng) for _ in range(60 * k)] + [crowd_script(rng) for _ in range(25 * k)])
 
 
 def shrink(s):
@@ -313,10 +517,11 @@ def shrink(s):
 
 
 def classify(s, t):
-    P = s[2]
-    out = [("fixed", "sliding_log", "sliding_counter")[min(s[0], 2)],
-           "period_%s" % ("pow2" if P & (P - 1) == 0 else "f64_two_periods_below_2" if P in (559, 561, 672, 801) else "non_dyadic"),
-           "limit_%s" % ("1_4" if s[1] <= 4 else "5_8" if s[1] <= 8 else "large"), "timeout_%s" % ("zero" if s[3] == 0 else "below" if s[3] < s[2] else "equal" if s[3] == s[2] else "above")]
+    P = dur(s[2])
+    out = [("fixed", "sliding_log", "sliding_counter")[min(s[0], 2)], "mode_%d" % (s[4] // 1000),
+           "period_%s" % ("zero" if P == 0 else "duration_max" if P == DUR_MAX else "instant_overflow_range" if P >= 10 ** 18 else "days" if P >= 86400000 else
+                          "1s_to_60s" if P >= 1000 else "pow2" if P & (P - 1) == 0 else "f64_two_periods_below_2" if P in (559, 561, 672, 801) else "non_dyadic"),
+           "limit_%s" % ("1_4" if s[1] <= 4 else "5_8" if s[1] <= 8 else "large"), "timeout_%s" % ("zero" if s[3] == 0 else "duration_max" if dur(s[3]) == DUR_MAX else "below" if dur(s[3]) < P else "equal" if dur(s[3]) == P else "above")]
     d = decode(s, t)
     if d:
         if any(o[0] == 3 for (_, o) in d):
@@ -332,6 +537,8 @@ def classify(s, t):
             out.append("admitted_after_waiting")
         if any(e[0] == 2 for (e, _) in d):
             out.append("has_cancel")
+        if any(e[0] == 6 for (e, _) in d):
+            out.append("has_clock_jump")
     return out
 
 
@@ -344,14 +551,15 @@ def nontrivial(s, t):
 
 
 def admissions(s, t):
-    """list of (instant, caller) for every inner-call start, from the implementation trace"""
+    """list of (instant, caller) for every inner call() the implementation made, whatever event made it (caller -1 when it
+    was not made while a caller was being created or polled; a call made during a clock advance is dated at its end)"""
     d = decode(s, t)
     now, out = 0, []
     for (e, o) in d:
-        if e[0] == 3:
+        if e[0] in (3, 6):
             now += max(0, e[1])
-        if e[0] == 1 and o[1] >= 1:
-            out += [(now, e[1])] * o[1]
+        if o[1] >= 1:
+            out += [(now, e[1] if e[0] in (1, 5) else -1)] * o[1]
     return out
 
 
